@@ -10,8 +10,7 @@ import ast
 import os
 import sys
 
-REPO = os.environ.get("NXS_REPO", "/repo")
-SRC = os.path.join(REPO, "src", "nxslib")
+SRC = os.path.join(os.environ.get("NXSLIB_SRC", "/repo/src"), "nxslib")
 
 
 class Unsupported(Exception):
@@ -254,6 +253,10 @@ def stmt(s):
             return None
         if is_trivial_super_init(s.value):
             return None
+        v = s.value
+        if (isinstance(v, ast.Call) and isinstance(v.func, ast.Name) and v.func.id == "setattr"
+                and len(v.args) == 3 and not v.keywords):
+            return "(SAssign (TDyn %s %s) %s)" % (expr(v.args[0]), expr(v.args[1]), expr(v.args[2]))
         return "(SExpr %s)" % expr(s.value)
     if isinstance(s, ast.Assign):
         if len(s.targets) != 1:
@@ -476,9 +479,7 @@ def translate_module(rel, status):
                         if init:
                             body = "(Scons (SAssign (TAttr (EName %s) %s) (EName %s)) %s)" % (
                                 cstr("self"), cstr(n), cstr(n), body)
-                        elif d is not None:
-                            body = "(Scons (SAssign (TAttr (EName %s) %s) %s) %s)" % (
-                                cstr("self"), cstr(n), d, body)
+                        # a field with init=False is not assigned: reads fall through to the class attribute
                     dn = "%s_DinitD" % node.name
                     out.append("Definition %s : func := (mkFunc %s %s false %s)." % (
                         dn, cstr("__init__"), clist(params), body))
@@ -515,7 +516,11 @@ MODULES = ["proto/iframe.py", "proto/serialframe.py", "dev.py", "proto/iparse.py
 
 def crc_table():
     """16-bit crcmod predefined definitions: name -> (poly, init, rev, xorout) as crcmod applies them."""
-    import crcmod.predefined as cp
+    try:
+        import crcmod.predefined as cp
+    except ImportError:
+        return None
+
     rows = []
     for d in cp._crc_definitions:
         poly = d["poly"]
@@ -549,7 +554,10 @@ def run(gen_dir, quiet=False):
             "From Coq Require Import String List ZArith NArith.\n"
             "From NX Require Import Crc PyLite %s.\nImport ListNotations.\nOpen Scope string_scope.\n\n"
             % " ".join("Src_" + m for m in mods))
-    allv += "Definition crcs : list (string * crc_params) := %s.\n\n" % clist(crc_table())
+    rows = crc_table()
+    if rows is None:
+        raise RuntimeError("crcmod is not importable: run the translator with /venv/bin/python")
+    allv += "Definition crcs : list (string * crc_params) := %s.\n\n" % clist(rows)
     allv += "Definition program : prog := mkProg\n  (%s)\n  (%s)\n  (%s)\n  crcs.\n" % (
         " ++ ".join("Src_%s.classes" % m for m in mods),
         " ++ ".join("Src_%s.funcs" % m for m in mods),
